@@ -1472,7 +1472,8 @@ type _structIterator struct {
 	nextIndex  int
 
 	// these are only used in repr.go
-	reprEnd int
+	reprEnd   int
+	reprIndex int // number of entries yielded so far (listpairs)
 }
 
 func (w *_structIterator) Next() (key, value datamodel.Node, _ error) {
